@@ -391,6 +391,16 @@ def spec_api(I, name, args):
         a, idx, v = args
         it = idx.term if isinstance(idx, KeyVal) else (_keyterm(I, idx) if isinstance(idx, VTuple) else _int(idx))
         return VArr(z3.Store(a.t, it, _int(v)))
+    if name in ('csv_rowlen', 'csv_text', 'csv_nrows'):
+        m = getattr(args[0], 'csv_model', None)
+        if m is None:
+            raise Unsupported('csv model of a sequence that does not come from csv.reader')
+        n, rowlen, cell = m
+        if name == 'csv_nrows':
+            return VInt(n)
+        if name == 'csv_rowlen':
+            return VInt(rowlen(_int(args[1])))
+        return VStr(cell(_int(args[1]), _int(args[2])))
     if name == 'sort_source':
         sq = args[0]
         if not hasattr(sq, 'sort_perm'):
@@ -529,4 +539,4 @@ def choose_patterns(bound, body, max_alternatives=4):
     return alts or None
 
 
-SPEC_API = {'sort_source', 'kat', 'mhas', 'mget', 'key_part', 'same', 'at', 'ghost_zero_int', 'ghost_zero_key', 'mk_key', 'blen', 'bat', 'dcount', 'dord', 'smem', 'llen', 'lat', 'sel', 'upd', 'forall'}
+SPEC_API = {'csv_rowlen', 'csv_text', 'csv_nrows', 'sort_source', 'kat', 'mhas', 'mget', 'key_part', 'same', 'at', 'ghost_zero_int', 'ghost_zero_key', 'mk_key', 'blen', 'bat', 'dcount', 'dord', 'smem', 'llen', 'lat', 'sel', 'upd', 'forall'}
